@@ -1,11 +1,39 @@
 From PV.Model Require Import Machine Mapping Views Headers Convert.
-From PV.Model Require Exports Imports.
+From PV.Model Require Exports Imports Dirs Resources.
 From PV.Spec Require Import MappingSpec ConvertSpec ConvertSimSpec.
 Require Import ExtrOcamlBasic.
 Extraction Language OCaml.
+
+(* third layer: the query kinds r (resources), m (debug directory with payloads and entries), u (exception directory with
+   function bytes and unwind info) - under names of their own, the extraction flattens all modules into one file *)
+Definition x_resources : view -> option (N * N) -> res Resources.rsec := view_resources.
+Definition x_root : Resources.rsec -> res N := Resources.root.
+Definition x_walk : nat -> Resources.rsec -> N -> N -> N -> list Resources.witem * N := Resources.walk.
+Definition x_fsck : Resources.rsec -> res unit := Resources.fsck.
+Definition x_find_resource : Resources.rsec -> N -> N -> Resources.fres region :=
+  fun s a b => Resources.find_resource 48 s (Resources.NId a) (Resources.NId b).
+Definition x_sec_bytes : Resources.rsec -> N -> N -> list N := Resources.sec_bytes.
+Definition x_debug_try_from : view -> option (N * N) -> res region := Dirs.debug_try_from.
+Definition x_debug_dirs : view -> region -> list Dirs.ddir := Dirs.debug_dirs.
+Definition x_dir_data : view -> Dirs.ddir -> option region := Dirs.dir_data.
+Definition x_dir_entry : view -> Dirs.ddir -> res Dirs.entry := Dirs.dir_entry.
+Definition x_exception_try_from : view -> option (N * N) -> res region := Dirs.exception_try_from.
+Definition x_exception_functions : view -> region -> list Dirs.rfun := Dirs.exception_functions.
+Definition x_function_bytes : view -> Dirs.rfun -> res region := Dirs.function_bytes.
+Definition x_unwind_info : view -> Dirs.rfun -> res region := Dirs.unwind_info.
+Definition x_unwind_vals : (N -> N) -> region -> N * N * N * N * N * N * list N := unwind_vals.
+Definition x_debug_consistent : (N -> N) -> N -> list section -> N -> N -> N -> bool :=
+  fun F soh secs size addr ptr =>
+    debug_entry_consistent F soh secs
+      {| Dirs.dd_off := 0; Dirs.dd_time := 0; Dirs.dd_type := 0; Dirs.dd_size := size; Dirs.dd_addr := addr; Dirs.dd_ptr := ptr |}.
+
 Extraction "../ocaml/gen/convert_model.ml"
   pe_to_view pe_to_file to_view to_file validate sections h_soh h_soi data_dir fmt32 fmt64
   slice_file slice_section get_section_bytes rd_c_str
   view_ok_b file_ok_b view_words_b roundtrip_b prefix_b wf_sections wf_raw first_v mapped_len
   stored_beyond_size_of_image raw_tail_not_mapped file_size_spec
-  h_base Exports.view_by Imports.imports Imports.descs Imports.dll_name Imports.desc_iat Imports.thunk_values relocs_try_from.
+  h_base Exports.view_by Imports.imports Imports.descs Imports.dll_name Imports.desc_iat Imports.thunk_values relocs_try_from
+  x_resources x_root x_walk x_fsck x_find_resource x_sec_bytes
+  x_debug_try_from x_debug_dirs x_dir_data x_dir_entry
+  x_exception_try_from x_exception_functions x_function_bytes x_unwind_info x_unwind_vals
+  x_debug_consistent prd_va_congruent stored_at.
